@@ -1,16 +1,21 @@
 (* C04 — Top-K reports every element heavier than its weakest entry. Statements only.
-   Full statement: for every k >= 1, every sketch dimensions, any hash, every insert history
-   with counts >= 1: Values has min(k, #distinct) entries, no duplicates, ordered by
-   (count desc, element asc); every reported count c satisfies true <= c <= total; every
-   unreported element has true total <= smallest reported count.
-   PROVED HERE (partial): Values() is exactly the heap array's contents reordered so that no
-   later entry is strictly before an earlier one in the (count desc, element asc) order.
-   The clauses about length, duplicates and count bounds are so far decided by the
-   correspondence (Values and the raw heap array are diffed after every step against the
-   faithful container/heap model) plus the exact-totals monitor; their theorems (heap order,
-   pop = minimum) are not yet in place. *)
+   In-memory variant, PROVED IN FULL for the clauses that do not mention hash collisions: for
+   every k >= 1, every sketch dimensions, EVERY position function with in-range results (so every
+   hash, sketches of any width, collisions included) and every insert history with counts >= 1
+   whose total fits the uint64 counters:
+     - Values has exactly min(k, number of distinct inserted elements) entries, no duplicates,
+       ordered by (count desc, element asc);
+     - every reported count is at least that element's true total, at most the sketch's current
+       estimate of it (hence exact whenever the estimate is exact: no collisions), and at most
+       the total of all inserted counts;
+     - every element that is not reported has a true total no greater than EVERY reported count
+       (in particular the smallest).
+   The proof goes through the heap invariant of container/heap (up/down/Push/Pop/Remove on the
+   array, Proofs/HeapProofs.v) and the Count-Min bounds of C03 (Proofs/CMSProofs.v).
+   The Redis variant (sorted set + Lua) is tied to the same statements by correspondence and by
+   the C08 pair machine only (partial). *)
 From GX.Model Require Import Base CMS Heap TopK.
-From GX.Proofs Require Import ListLemmas TopKProofs.
+From GX.Proofs Require Import ListLemmas CMSProofs HeapProofs TopKProofs TopKInv.
 From Coq Require Import Permutation Sorted.
 
 Theorem C04_values_partial : forall t,
@@ -30,6 +35,51 @@ Theorem C04_order_total : forall a b,
   before a b = true \/ before b a = true \/ (hfreq a = hfreq b /\ bytes_cmp (fst a) (fst b) = Eq).
 Proof. exact before_total. Qed.
 
+Section Mem.
+Variable cpos : N -> N -> bytes -> list N.
+Variable rows cols : N.
+Hypothesis cpos_len : forall x, length (cpos rows cols x) = N.to_nat rows.
+Hypothesis cpos_lt : forall x p, In p (cpos rows cols x) -> p < cols.
+
+Theorem C04_mem_values : forall k s0 ins,
+  1 <= k -> cms_new rows cols = Ok s0 -> Forall (fun e => 1 <= snd e) ins -> total ins < two64 ->
+  exists t, trun cpos (mkTopk k s0 []) ins = Ok t /\
+    let vs := topk_values t in
+    NoDup (map fst vs) /\
+    N.of_nat (length vs) = N.min k (N.of_nat (length (distinct ins))) /\
+    (forall e, In e vs -> In (fst e) (map fst ins) /\ true_count ins (fst e) <= hfreq e /\
+                          hfreq e <= cms_count cpos (t_sketch t) (fst e) /\ hfreq e <= total ins) /\
+    (forall x, In x (map fst ins) -> ~ In x (map fst vs) ->
+       N.of_nat (length vs) = k /\ forall e, In e vs -> true_count ins x <= hfreq e).
+Proof. exact (topk_values_history cpos rows cols cpos_len cpos_lt). Qed.
+End Mem.
+
+(* the heap operations of container/heap, on arrays of any content: Push adds the entry, Pop
+   removes an entry of minimal frequency, Remove(i) removes entry i; each keeps the heap order *)
+Theorem C04_heap_push : forall h e, heap_ok h ->
+  heap_ok (heap_push h e) /\ Permutation (heap_push h e) (e :: h).
+Proof. intros h e H. split; [apply heap_push_ok; exact H|apply heap_push_perm]. Qed.
+Theorem C04_heap_pop : forall h m h', heap_ok h -> heap_pop h = Ok (m, h') ->
+  heap_ok h' /\ Permutation (m :: h') h /\ forall e, In e h -> hfreq m <= hfreq e.
+Proof.
+  intros h m h' H E. destruct (heap_pop_ok h m h' H E) as [A B]. destruct (heap_pop_perm h m h' E) as [C _]. auto.
+Qed.
+Theorem C04_heap_remove : forall h i, heap_ok h -> (i < length h)%nat ->
+  heap_ok (heap_remove h i) /\ Permutation (hget h i :: heap_remove h i) h.
+Proof. intros h i H Hi. split; [apply heap_remove_ok; assumption|apply heap_remove_perm; exact Hi]. Qed.
+
+(* non-vacuity: the code's own position formula satisfies the hypotheses (C03_code_positions_wf),
+   and a concrete history on a 1x2 sketch (heavy collisions) with k = 2 evicts and reports *)
+Example C04_premises_hold :
+  exists s0, cms_new 1 2 = Ok s0 /\ (1 <= 2) /\
+  Forall (fun e : bytes * N => 1 <= snd e) [([1], 5); ([2], 7); ([3], 1); ([1], 2)] /\
+  total [([1], 5); ([2], 7); ([3], 1); ([1], 2)] < two64.
+Proof. eexists. split; [reflexivity|]. split; [vm_compute; congruence|]. split; [repeat constructor; vm_compute; congruence|vm_compute; reflexivity]. Qed.
+
 Print Assumptions C04_values_partial.
 Print Assumptions C04_order_antisym.
 Print Assumptions C04_order_total.
+Print Assumptions C04_mem_values.
+Print Assumptions C04_heap_push.
+Print Assumptions C04_heap_pop.
+Print Assumptions C04_heap_remove.
